@@ -6,7 +6,10 @@ from cryptography import x509
 from mitmproxy import certs
 
 # ---- the name universe -------------------------------------------------------------------------
-DNS = ["example.com", "www.example.com", "a.www.example.com", "other.org", "com", "", ".example.com", "*.example.com"]
+LONG = "l" * 60 + ".example.com"          # >= 64 characters: dummy_cert leaves the CN out of the subject
+LONG2 = "www." + "m" * 59 + ".other.org"
+DNS = ["example.com", "www.example.com", "a.www.example.com", "other.org", "com", "", ".example.com", "*.example.com",
+       LONG, LONG2, "WWW.Example.com"]
 IPS = ["1.2.3.4", "::1"]
 # fixed pool of custom certificates: cid -> (cn, [(kind, value)])    kind 0 = DNSName, 1 = IPAddress
 CUSTOM = [
@@ -17,7 +20,7 @@ CUSTOM = [
     (None, [(0, "")]),
     ("com", [(0, "*.com")]),
 ]
-REG_NAMES = ["*", "*.example.com", "*.www.example.com", "*.com", "example.com", "www.example.com", "", "other.org",
+REG_NAMES = ["*." + LONG2.split(".", 1)[1], LONG, "*", "*.example.com", "*.www.example.com", "*.com", "example.com", "www.example.com", "", "other.org",
              "1.2.3.4", "*.org", "a.www.example.com"]
 
 
@@ -33,11 +36,17 @@ class FakeName:
     def __init__(self, value): self.value = value
 
 
+def cert_cn(commonname):
+    """what dummy_cert puts into the subject: the CN only if it is non-empty and shorter than 64 characters"""
+    return commonname if commonname is not None and 0 < len(commonname) < 64 else None
+
+
 class FakeCert:
-    """stand-in for certs.Cert in the stubbed runs: identity equality, cn + altnames only"""
-    def __init__(self, cn, sans):
-        self.cn = cn
-        self.altnames = list(sans)
+    """stand-in for certs.Cert in the stubbed runs: identity equality, cn + altnames only; like the real dummy_cert
+    it leaves a CN of 64 or more characters out of the subject"""
+    def __init__(self, cn, sans, generated=False):
+        self.cn = cert_cn(cn) if generated else cn
+        self.altnames = x509.GeneralNames(sans) if generated else list(sans)
 
 
 def wild_ok(key: str, name: str) -> bool:
@@ -64,11 +73,13 @@ class Check(PropertyCheck):
                   "tied to the real CertStore by differential histories (stubbed dummy_cert and real signing).")
     level_note = ("trusted: Lean kernel; the model/implementation tie is differential (random + directed histories over a "
                   "10-name universe incl. the empty name, >STORE_CAP distinct requests); dummy_cert is a parameter of the "
-                  "model (fresh entry carrying exactly (cn, sans), or failure for an empty CN) — that the real dummy_cert "
+                  "model (fresh entry carrying exactly (cn, sans), or failure — the real one refused an empty CN until 154071a26; the harness probes this on every run) — that the real dummy_cert "
                   "puts exactly these names into the certificate is checked by the oracle on the real-signing histories, "
                   "not proved; names are ASCII; add_cert is exercised with custom (non-generated) entries only.")
     technique = "Lean 4 proof (invariants over operation histories) + differential model-vs-code correspondence + STORE_CAP translator"
-    rule = ("a case is one history (<=320 ops) of get_cert / add_cert over 10 names x {CN, DNS SAN, IP SAN} and 6 custom "
+    rule = ("a case is one history (<=320 ops) of get_cert / add_cert over 13 names (incl. the empty name, upper case and two "
+            "names of >= 64 characters, whose CN dummy_cert leaves out of the subject) x {CN, DNS SAN, IP SAN}, sans passed as "
+            "list / GeneralNames / tuple / generator, organization and crl_url given or not, and 6 custom "
             "certificates registered under exact, wildcard, '*' and empty names; shapes: random mix, churn (more distinct "
             "requests than STORE_CAP, then re-requests of evicted and cached names), registration between repeats; "
             "distinct = distinct history; non-trivial = at least one generated and one repeated request.")
@@ -82,6 +93,7 @@ class Check(PropertyCheck):
     parallel = False
 
     _ca = None
+    _empty_cn_raises = False
 
     # ---- translator: STORE_CAP --------------------------------------------------------------
     def translate(self):
@@ -97,6 +109,11 @@ class Check(PropertyCheck):
             key, ca = certs.create_ca("verif", "verif", 2048)
             Check._ca = (key, certs.Cert(ca), certs.dummy_crl(key, ca))
             key, ca, _ = Check._ca
+            try:
+                certs.dummy_cert(key, ca._cert, "", [])
+                Check._empty_cn_raises = False
+            except ValueError:
+                Check._empty_cn_raises = True
             Check._real_custom = [
                 certs.CertStoreEntry(certs.dummy_cert(key, ca._cert, cn, [san_obj(k, v) for k, v in sans]), key, None, [])
                 for cn, sans in CUSTOM]
@@ -111,7 +128,11 @@ class Check(PropertyCheck):
                 sans.append([1, rng.pick(IPS)])
             else:
                 sans.append([0, rng.pick(DNS)])
-        return {"op": "get", "cn": cn, "sans": sans}
+        r = {"op": "get", "cn": cn, "sans": sans}
+        if rng.chance(0.4): r["sf"] = rng.randint(1, 3)        # sans passed as GeneralNames / tuple / generator
+        if rng.chance(0.2): r["org"] = rng.pick(["Org", "Other Org"])
+        if rng.chance(0.2): r["crl"] = "http://crl.example/ca.crl"
+        return r
 
     def _add(self, rng):
         names = [rng.pick(REG_NAMES) for _ in range(rng.weighted([(3, 0), (4, 1), (2, 2)]))]
@@ -182,7 +203,7 @@ class Check(PropertyCheck):
 
         def stub(privkey, cacert, commonname, sans, organization=None, crl_url=None):
             gen_log.append((commonname, [san_view(s) for s in sans]))
-            return FakeCert(commonname, sans)
+            return FakeCert(commonname, list(sans), generated=True)
 
         if real:
             customs = Check._real_custom
@@ -202,8 +223,10 @@ class Check(PropertyCheck):
                     r = {"r": "ok"}
                 else:
                     sans = [san_obj(k, v) for k, v in op["sans"]]
+                    sf = op.get("sf", 0)
+                    sans = x509.GeneralNames(sans) if sf == 1 else tuple(sans) if sf == 2 else iter(sans) if sf == 3 else sans
                     try:
-                        e = cs.get_cert(op["cn"], sans)
+                        e = cs.get_cert(op["cn"], sans, op.get("org"), op.get("crl"))
                     except ValueError:
                         # cryptography refuses an empty CN attribute (only reachable with the real dummy_cert)
                         e = None
@@ -267,7 +290,7 @@ class Check(PropertyCheck):
                 nadds += 1
                 continue
             if r["r"] == "err":
-                if not (case["real"] and op["cn"] == ""):
+                if not (case["real"] and op["cn"] == "" and Check._empty_cn_raises):
                     fails.append(f"op {i}: get_cert raised")
                 continue
             key = (op["cn"], tuple(map(tuple, op["sans"])))
@@ -282,7 +305,7 @@ class Check(PropertyCheck):
                 # "or a generated one for exactly the requested names"
                 if r["fresh"]:
                     ngenerated += 1; gen_index[r["id"]] = ngenerated
-                want_cn = op["cn"] if (not case["real"] or (op["cn"] is not None and len(op["cn"]) < 64)) else None
+                want_cn = cert_cn(op["cn"])    # a CN of 64+ characters cannot be carried by the subject; the SANs must still be exact
                 if r["cert_cn"] != want_cn or r["cert_sans"] != [list(s) for s in op["sans"]]:
                     fails.append(f"op {i}: generated certificate carries cn={r['cert_cn']!r} sans={r['cert_sans']} for request {op['cn']!r} {op['sans']}")
             # "repeated requests for the same names return the same certificate while it is cached"
@@ -309,7 +332,7 @@ class Check(PropertyCheck):
                 cn, sans = CUSTOM[op["cid"]]
                 lines.append(f"add {op['cid']} {fld(cn)} {self._sans_field(sans)} {lst([hx(n.encode()) for n in op['names']])}")
             else:
-                gen_ok = 0 if (case["real"] and op["cn"] == "") else 1
+                gen_ok = 0 if (case["real"] and op["cn"] == "" and Check._empty_cn_raises) else 1
                 lines.append(f"get {gen_ok} {fld(op['cn'])} {self._sans_field(op['sans'])}")
         lines.append("dump")
         return lines
@@ -344,6 +367,10 @@ class Check(PropertyCheck):
         rs = obs["ops"]
         if any(r["r"] == "c" for r in rs): out.append("custom-hit")
         if any(r["r"] == "err" for r in rs): out.append("dummy_cert-raised")
+        if any(op["op"] == "get" and op["cn"] is not None and len(op["cn"]) >= 64 and r.get("fresh") for op, r in zip(case["ops"], rs)):
+            out.append("generated-with-long-cn")
+        if any(op.get("sf") for op in case["ops"]): out.append("sans-as-other-iterable")
+        if any(op.get("org") or op.get("crl") for op in case["ops"]): out.append("organization/crl-given")
         if any(r.get("fresh") for r in rs): out.append("generated")
         if sum(1 for r in rs if r.get("fresh")) > obs["cap"]: out.append("evicted")
         if any(r["r"] == "g" and not r["fresh"] for r in rs): out.append("cache-hit")
